@@ -640,26 +640,38 @@ theorem qualify_wiring_counterexample :
     let p := "N".toList; let x := "N__t".toList; let t := "t".toList; let y := "y".toList
     qualify p [x] [y] [⟨[x], [t]⟩, ⟨[t], [y]⟩] = [⟨[x], [x]⟩, ⟨[x], [y]⟩] := by decide
 
-/-- Node names as the builder assigns them (`{op_type}_{i}`: no `__` inside, no `_` at the end) qualify
-    injectively: `f"{p₁}__{a}" = f"{p₂}__{b}"` only for `p₁ = p₂` and `a = b`. -/
-theorem qualified_names_disjoint (p₁ p₂ a b : Nm) (h₁ : Clean p₁) (h₂ : Clean p₂)
-    (h : qual p₁ a = qual p₂ b) : p₁ = p₂ ∧ a = b :=
-  qual_prefix_inj h₁ h₂ h
+/-- Node names that do not end in `_` (every name the builder assigns: `enum_names_end_clean`) qualify names
+    without `__` injectively: `f"{p₁}__{a}" = f"{p₂}__{b}"` only for `p₁ = p₂` and `a = b` — also when the node
+    names themselves contain `__` (nodes of a body are called `f"{subgraph}__{op_type}_{i}"`). -/
+theorem qualified_names_disjoint (p₁ p₂ a b : Nm) (h₁ : EndsClean p₁) (h₂ : EndsClean p₂)
+    (ha : NoSep a) (hb : NoSep b) (h : qual p₁ a = qual p₂ b) : p₁ = p₂ ∧ a = b :=
+  qual_prefix_inj h₁ h₂ ha hb h
+
+/-- Every name `ScopeSpace.enum` makes, `f"{base}_{i}"` — whatever the base: an operator identifier, with or without
+    the `f"{subgraph}__"` prefix of a body — does not end in `_` (the digits of `i`: not empty, no `_`). -/
+theorem enum_names_end_clean (base ds : Nm) (hd : ds ≠ []) (hds : '_' ∉ ds) : EndsClean (base ++ '_' :: ds) :=
+  enum_name_endsClean base ds hd hds
 
 /-- `adapted_names_fresh` at the level of the STRINGS, for the converter-introduced names: for any number of
-    converted nodes with pairwise different builder-assigned names, each conversion introducing distinct
-    names, all the qualified names of the model are pairwise different strings. -/
+    converted nodes (main graph, bodies, any depth) with pairwise different builder-assigned names, each conversion
+    introducing distinct names without `__`, all the qualified names of the model are pairwise different strings. -/
 theorem adapted_names_fresh_strings (cs : List (Nm × List Nm))
-    (hp : (cs.map (·.1)).Nodup) (hc : ∀ c ∈ cs, Clean c.1) (hn : ∀ c ∈ cs, c.2.Nodup) :
+    (hp : (cs.map (·.1)).Nodup) (hc : ∀ c ∈ cs, EndsClean c.1) (hs : ∀ c ∈ cs, ∀ a ∈ c.2, NoSep a)
+    (hn : ∀ c ∈ cs, c.2.Nodup) :
     (cs.flatMap (fun c => c.2.map (qual c.1))).Nodup :=
-  qualified_nodup cs hp hc hn
+  qualified_nodup cs hp hc hs hn
 
-/-- …and cleanness of the node names is needed: `A` + `__` + `_x` = `A_` + `__` + `x`. -/
+/-- …and both provisos are needed: `A` + `__` + `_x` = `A_` + `__` + `x` (a node name ending in `_`), and
+    `A` + `__` + `B_0__y` = `A__B_0` + `__` + `y` (an introduced name containing `__`). -/
 theorem clean_needed_counterexample :
-    "A".toList ≠ "A_".toList ∧ qual "A".toList "_x".toList = qual "A_".toList "x".toList := by decide
+    ("A".toList ≠ "A_".toList ∧ qual "A".toList "_x".toList = qual "A_".toList "x".toList) ∧
+    ("A".toList ≠ "A__B_0".toList ∧ qual "A".toList "B_0__y".toList = qual "A__B_0".toList "y".toList) := by
+  decide
 
-/-- the executable test used for the witnesses (and mirrored by the harness on every observed node name) -/
-theorem cleanB_clean (p : Nm) (h : cleanB p = true) : Clean p := cleanB_sound p h
+/-- the executable tests used for the witnesses (and mirrored by the harness on every observed node name and
+    introduced name) imply the hypotheses -/
+theorem cleanB_clean (p : Nm) : (endsCleanB p = true → EndsClean p) ∧ (noSepB p = true → NoSep p) :=
+  ⟨endsCleanB_sound p, noSepB_sound p⟩
 
 end Qualify
 
@@ -740,14 +752,20 @@ example : Opset.Qualify.qualify "ReduceMean_0".toList ["x".toList] ["ReduceMean_
       [⟨[], ["_v_4".toList]⟩, ⟨["x".toList, "_v_4".toList], ["ReduceMean_0_reduced".toList]⟩] =
     [⟨[], ["ReduceMean_0___v_4".toList]⟩,
      ⟨["x".toList, "ReduceMean_0___v_4".toList], ["ReduceMean_0_reduced".toList]⟩] := by decide
-example : Opset.Qualify.Clean "ReduceMean_0".toList ∧ Opset.Qualify.Clean "ReduceMean_1".toList :=
-  ⟨cleanB_clean _ (by decide), cleanB_clean _ (by decide)⟩
-example : (([("ReduceMean_0".toList, ["_v_4".toList]), ("ReduceMean_1".toList, ["_v_4".toList])] :
+example : Opset.Qualify.EndsClean "If_0_then_branch__ReduceMean_0".toList ∧ Opset.Qualify.NoSep "_v_4".toList :=
+  ⟨(cleanB_clean _).1 (by decide), (cleanB_clean _).2 (by decide)⟩
+example : Opset.Qualify.EndsClean ("If_0_then_branch__ReduceMean".toList ++ '_' :: "10".toList) :=
+  enum_names_end_clean _ _ (by decide) (by decide)
+example : (([("ReduceMean_0".toList, ["_v_4".toList]), ("If_0_then_branch__ReduceMean_0".toList, ["_v_4".toList])] :
       List (Opset.Qualify.Nm × List Opset.Qualify.Nm)).flatMap
         (fun c => c.2.map (Opset.Qualify.qual c.1))).Nodup :=
   adapted_names_fresh_strings _ (by decide)
     (by intro c hc; simp only [List.mem_cons, List.mem_nil_iff, or_false] at hc
-        rcases hc with rfl | rfl <;> exact cleanB_clean _ (by decide))
+        rcases hc with rfl | rfl <;> exact (cleanB_clean _).1 (by decide))
+    (by intro c hc a ha; simp only [List.mem_cons, List.mem_nil_iff, or_false] at hc
+        rcases hc with rfl | rfl <;>
+          (simp only [List.mem_cons, List.mem_nil_iff, or_false] at ha; subst ha
+           exact (cleanB_clean _).2 (by decide)))
     (by intro c hc; simp only [List.mem_cons, List.mem_nil_iff, or_false] at hc
         rcases hc with rfl | rfl <;> decide)
 example : NoClash "N".toList ["x".toList] ["y".toList] [⟨["x".toList], ["t".toList]⟩, ⟨["t".toList], ["y".toList]⟩] := by
